@@ -20,13 +20,15 @@ for pid in props:
         "engine": "lean4-model+correspondence",
         "level_claimed": {"category": "proof", "text": e["text"], "design_ref": e.get("design_ref", f"DESIGN.md §8 {pid}")},
         "level_note": e["note"],
-        "technique": e.get("technique", "Lean 4 theorems over a hand-written executable model + differential correspondence with the real code"),
+        "technique": e.get("technique", ("Lean 4 theorems over a hand-written executable model and over Lean tables regenerated from /repo's source on every run (translator) + differential correspondence with the real code"
+                                          if (V / "lean" / "GlotaranModel" / "Generated" / f"{pid}.lean").exists() else
+                                          "Lean 4 theorems over a hand-written executable model + differential correspondence with the real code")),
     })
 m = {
     "version": 1,
     "setup_cmd": src["setup_cmd"],
     "hooks": src["hooks"],
-    "engines": src["engines"],
+    "engines": [dict(en, serves_properties=[c["property_id"] for c in checks]) for en in src["engines"]],
     "checks": checks,
     "not_applicable": na,
     "notes": src["notes"],
